@@ -233,7 +233,14 @@ const MIRIFLAGS: &str = "-Zmiri-tree-borrows -Zmiri-permissive-provenance -Zmiri
 /// A part that runs the same worker code under a sanitizer build of the
 /// harness + /repo (no RocksDB / Fjall in these builds: pure Rust only).
 pub fn sanitizer_part(kind: &'static str, nshards: usize, budget_s: u64) -> PartSpec {
-    let h = format!("{}/harness", verif_root());
+    // the harness crate this binary was built from: <harness>/target*/release/qv
+    let h = std::env::var("QV_HARNESS").ok().unwrap_or_else(|| {
+        std::env::current_exe()
+            .ok()
+            .and_then(|e| e.parent().and_then(|p| p.parent()).and_then(|p| p.parent()).map(|p| p.to_string_lossy().to_string()))
+            .filter(|p| std::path::Path::new(&format!("{p}/Cargo.toml")).exists())
+            .unwrap_or_else(|| format!("{}/harness", verif_root()))
+    });
     let s = |v: &[&str]| v.iter().map(|x| x.to_string()).collect::<Vec<_>>();
     let man = format!("{h}/Cargo.toml");
     match kind {
@@ -661,6 +668,7 @@ pub fn run_check(meta: CheckMeta, seed: u64, tier: Tier, replay: Option<&str>) -
     let mut total = Report::default();
     let mut all_viol: Vec<(String, Violation)> = Vec::new();
     let mut worker_notes: Vec<Json> = Vec::new();
+    let mut part_notes: Vec<Json> = Vec::new();
     let mut broken = false;
 
     for part in &meta.parts {
@@ -690,6 +698,16 @@ pub fn run_check(meta: CheckMeta, seed: u64, tier: Tier, replay: Option<&str>) -
             total.count(&format!("{}:build_s", part.name), tp.elapsed().as_secs());
         }
         let outs = run_part(meta.id, part, seed, tier, replay, max_par);
+        let part_evals: u64 = outs.iter().filter_map(|o| o.report.as_ref().map(|r| r.evaluations)).sum();
+        let part_done = outs.iter().filter(|o| o.report.is_some()).count();
+        part_notes.push(
+            Json::obj()
+                .set("part", part.name)
+                .set("sanitizer", part.sanitizer.unwrap_or("none"))
+                .set("shards", part.nshards)
+                .set("shards_completed", part_done)
+                .set("evaluations", part_evals),
+        );
         for o in outs {
             let wid = format!("{}#{}", o.part, o.shard);
             for v in o.violations {
@@ -848,6 +866,7 @@ pub fn run_check(meta: CheckMeta, seed: u64, tier: Tier, replay: Option<&str>) -
             "known_findings_hit",
             Json::Obj(known_hit.iter().map(|(k, v)| (k.clone(), Json::Int(*v as i128))).collect()),
         )
+        .set("parts", Json::Arr(part_notes))
         .set("workers", Json::Arr(worker_notes));
     if let Some(ex) = total.counters.get("exhaustive_parts") {
         cov.put("exhaustive_parts", *ex);
